@@ -57,6 +57,8 @@ def generate(seed, tier, index):
              "element": rng.choice([None, None, None, "E1", "E2", "E9"]), "type": rng.choice(["Base", "Base", "Value", "State", "Definition"]),
              "kind": rng.choice(["plain", "plain", "plain", "coro", "coro", "raising", "raising_coro", "raising_cancelled"])}
         ncb += 1
+        if rng.random() < 0.2:
+            f["orphan"] = True
         return f
 
     for _ in range(rng.randint(1, 4)):
@@ -237,6 +239,12 @@ def execute(scen):
                 raise RuntimeError("callback failure injected")
 
         def make_cb(cid, kind):
+            if cbs[cid]["filter"].get("orphan"):
+                # fire-and-forget: client.onevent(callback=Recorder(...).plain) - the application keeps no reference to the
+                # handler object, the registration is what keeps it alive
+                cbs[cid]["recorder"] = None
+                probes["callback_owner_referenced_by_nobody_else"] = 1
+                return getattr(Recorder(cid), kind)
             cbs[cid]["recorder"] = Recorder(cid)
             return getattr(cbs[cid]["recorder"], kind)
 
@@ -265,12 +273,13 @@ def execute(scen):
                 cid = st["id"]
                 cbs[cid] = {"filter": st, "uuid": None, "removed_at": None, "log": [], "expected": [], "kind": st["kind"]}
                 cb = make_cb(cid, st["kind"])
-                cbs[cid]["cb"] = cb
+                cbs[cid]["cb"] = None if st.get("orphan") else cb
                 kw = {"callback": cb, "event_type": TYPES[st["type"]]}
                 for k in ("device", "vector", "element"):
                     if st[k] is not None:
                         kw[k] = st[k]
                 cbs[cid]["uuid"] = sim.do(lambda: client.onevent(**kw))
+                cb = kw = None  # (the harness keeps no reference of its own to a fire-and-forget handler)
             elif op == "rm_uuid":
                 c = cbs.get(st["id"])
                 if c is None or c["removed_at"] is not None:
@@ -303,7 +312,7 @@ def execute(scen):
                 probes["pending_waitforevent"] = probes.get("pending_waitforevent", 0) + 1
             elif op == "rm_callback":
                 c = cbs.get(st["id"])
-                if c is None or c["removed_at"] is not None:
+                if c is None or c["removed_at"] is not None or c["recorder"] is None:
                     continue
                 fresh = getattr(c["recorder"], c["kind"])  # a new bound-method object, equal to the registered one
                 sim.do(lambda: client.rmonevent(callback=fresh))
